@@ -24,6 +24,8 @@ func main() {
 		os.Exit(cmdCheck(os.Args[2:]))
 	case "replay":
 		os.Exit(cmdReplay(os.Args[2:]))
+	case "selftest":
+		os.Exit(cmdSelftest())
 	default:
 		fmt.Fprintln(os.Stderr, "unknown command", os.Args[1])
 		os.Exit(2)
@@ -147,4 +149,33 @@ func parseKVInt(s string) map[string]int {
 		out[k] = n
 	}
 	return out
+}
+
+// cmdSelftest checks the plumbing end to end on two tiny harnesses: the solver
+// must find the one input that breaks abs(x) >= 0 and must prove a bounded
+// arithmetic/map/string harness.
+func cmdSelftest() int {
+	p, err := eng.Load(eng.LoadConfig{RepoDir: repoDir(), HarnessDir: harnessDir(), Patterns: []string{"gjvharness/t0"}})
+	if err != nil {
+		fmt.Println("selftest: load:", err)
+		return 2
+	}
+	for _, solver := range []string{"z3", "cvc5"} {
+		ex := &eng.Explorer{P: p, Entry: p.FuncByName("gjvharness/t0", "HarnessAbs"), Solver: solver, Workers: 2, B: eng.Bounds{MaxSteps: 100000, SolverMs: 20000}}
+		if err := ex.Explore(); err != nil {
+			fmt.Println("selftest:", err)
+			return 2
+		}
+		if len(ex.Violations) != 1 || fmt.Sprint(ex.Violations[0].Inputs["a"]) != "-9223372036854775808" {
+			fmt.Printf("selftest(%s): expected the MinInt64 counterexample, got %v\n", solver, ex.Violations)
+			return 2
+		}
+		ok := &eng.Explorer{P: p, Entry: p.FuncByName("gjvharness/t0", "HarnessOK"), Solver: solver, Workers: 2, B: eng.Bounds{MaxSteps: 100000, SolverMs: 20000}}
+		if err := ok.Explore(); err != nil || len(ok.Violations) != 0 || len(ok.Inconclusive) != 0 || ok.Reached["done"] == 0 {
+			fmt.Printf("selftest(%s): bounded harness did not verify: %v %v %v\n", solver, err, ok.Violations, ok.Inconclusive)
+			return 2
+		}
+	}
+	fmt.Println("selftest ok (z3, cvc5)")
+	return 0
 }
